@@ -214,6 +214,32 @@ class _C15(Spec):
             rreqs.append("set ops safe " + prog)
             rreqs.append("set ops unsafe " + prog)
         sts.append(Stream("set-random", rreqs))
+        # LARGE sets: grown by single Adds past every size a container might treat specially (hundreds, 1024, 2048, 4096,
+        # 8192 members), then emptied by single Removes in the same / reverse / random order, membership and size asked
+        # along the way (a rehash, a shrink-to-fit, a "small set" fast path on the way up or down)
+        lreqs = []
+        sizes = [70, 300, 1100, 1500, 2100] if tier == "quick" else [70, 300, 1100, 1500, 2100, 2600, 4200, 5000, 8300, 9000, 17000]
+        for N in sizes:
+            for order in ("same", "reverse", "random"):
+                h = ["add:0:i%d" % k for k in range(N)] + ["card:0", "clone:1:0"]
+                ks = list(range(N))
+                if order == "reverse":
+                    ks.reverse()
+                elif order == "random":
+                    rng.shuffle(ks)
+                for j, k in enumerate(ks):
+                    h.append("rm:0:i%d" % k)
+                    if j % 7 == 0 or N - j in (N // 4, N // 4 - 1, N // 4 + 1, N // 2, N // 8, 1024, 1023, 512, 256, 255, 64, 8, 1, 0):
+                        h.append("has:0:i%d" % k)
+                        h.append("card:0")
+                    if j % 97 == 0:
+                        h.append("add:0:i%d" % k)
+                        h.append("rm:0:i%d" % k)
+                h += ["card:0", "slice:0", "eq:0:1", "sub:0:1", "diff:2:1:0", "card:2", "add:0:i7", "slice:0"]
+                prog = ";".join(h)
+                lreqs.append("set ops safe " + prog)
+                lreqs.append("set ops unsafe " + prog)
+        sts.append(Stream("set-large", lreqs))
         return sts
 
     def exhaustive(self, tier):
